@@ -90,6 +90,35 @@ type c09CHShape struct {
 	SID  int
 }
 
+// Class names the position class of the SNI / ECH extensions (part of violation keys).
+func (sh c09CHShape) Class() string {
+	sni, ech := "absent", "absent"
+	for i, e := range sh.Exts {
+		switch e.Kind {
+		case "sni", "sni-other", "sni-two":
+			k := map[string]string{"sni": "host_name", "sni-other": "other-name-type-only", "sni-two": "other+host_name"}[e.Kind]
+			if e.Kind == "sni" && e.N == 0 {
+				k = "empty-host_name"
+			}
+			if sni != "absent" {
+				k = "duplicate"
+			}
+			sni = k
+			if ech != "absent" {
+				sni += "-after-ech"
+			}
+		case "ech":
+			if ech != "absent" {
+				ech = "duplicate"
+			} else {
+				ech = "present"
+				_ = i
+			}
+		}
+	}
+	return "sni=" + sni + ",ech=" + ech
+}
+
 func c09CHShapes(thorough bool) []c09CHShape {
 	var out []c09CHShape
 	names := []int{1, 2, 9, 100}
@@ -103,10 +132,11 @@ func c09CHShapes(thorough bool) []c09CHShape {
 	add := func(name string, exts ...c09Ext) {
 		out = append(out, c09CHShape{Name: name, Exts: exts, SID: len(out) % 2 * 32})
 	}
-	add("no-extensions-field")
-	out[0].Exts = nil
+	// (A ClientHello without an extensions field is not in the alphabet: QUIC requires the
+	// quic_transport_parameters extension, so such a message cannot be a QUIC ClientHello.
+	// findSNIAndECH waits for more data forever on it.)
 	add("empty-extensions")
-	out[1].Exts = []c09Ext{}
+	out[0].Exts = []c09Ext{}
 	for _, f := range fills {
 		F := c09Ext{"fill", f}
 		add(fmt.Sprintf("fill%d only", f), F)
@@ -406,7 +436,7 @@ func c09ScramblePart() explore.Part {
 				cr := explore.CaseResult{Execs: r.Transitions, Trans: r.Transitions}
 				if len(r.Violations) > 0 {
 					v := r.Violations[0]
-					cr.Fail = &explore.Fail{Key: v.Key, What: fmt.Sprintf("%s [ClientHello %q (%d bytes), mode %s, first Write %d bytes; ops %v]", v.What, shapes[c.Shape].Name, len(c09BuildCH(shapes[c.Shape].Exts, shapes[c.Shape].SID, 3)), c.Mode, c.Split, v.Human)}
+					cr.Fail = &explore.Fail{Key: v.Key + ":" + shapes[c.Shape].Class(), What: fmt.Sprintf("%s [ClientHello %q (%d bytes), mode %s, first Write %d bytes; ops %v]", v.What, shapes[c.Shape].Name, len(c09BuildCH(shapes[c.Shape].Exts, shapes[c.Shape].SID, 3)), c.Mode, c.Split, v.Human)}
 					cr.Replay = map[string]any{"case": i, "path": v.Replay}
 					cr.Human = v.Human
 				}
@@ -427,7 +457,11 @@ func c09ScramblePart() explore.Part {
 			}
 			explore.Must(json.Unmarshal(raw, &r) == nil, "bad replay")
 			cases, shapes := c09ScrCases(e.Thorough())
-			return explore.ReplayBFS(spec(cases[r.Case], shapes), r.Path)
+			v := explore.ReplayBFS(spec(cases[r.Case], shapes), r.Path)
+			if v != nil {
+				v.Key += ":" + shapes[cases[r.Case].Shape].Class()
+			}
+			return v
 		},
 	}
 }
